@@ -31,6 +31,8 @@ def judge_solves(r, tree=False):
                 bad.append(("witness-rayleigh", {"solve": k, "what": "returned vectors not orthonormal", "rec": s}))
             if s.get("algo") == "direct" and s.get("eig_err", 0.0) > TOL_WIT:
                 bad.append(("witness-rayleigh", {"solve": k, "what": "direct solver did not return the lowest eigenvalues of the masked H_eff", "rec": s}))
+            if s.get("zero_state"):
+                bad.append(("witness-isometry", {"solve": k, "what": "P c = 0 for a non-zero coefficient vector", "rec": s}))
             if s.get("norm_ratio_err", 0.0) > TOL_WIT:
                 bad.append(("witness-isometry", {"solve": k, "what": "<Pc|Pc> != <c|c>", "rec": s}))
         if s.get("ray_dense_err", 0.0) > TOL_WIT:
@@ -71,7 +73,7 @@ def judge_chain(case, r):
     nsol = 0
     per_sweep = [len(sw) for sw in r.get("micro", [])]
     for k, s in enumerate(r.get("solves", [])):
-        if s.get("mask_dim") == sd and not s.get("hook_error"):
+        if s.get("mask_dim") == sd and not s.get("hook_error") and s.get("algo") == "direct":
             if first_full is None:
                 first_full = k
             for j, e in enumerate(s.get("e", [])):
